@@ -377,6 +377,16 @@ func runCase(c Case, dir string) (err error, counts map[string]int) {
 			}
 		}
 	}
+	// a shard whose computation ran to its end in an undisturbed, successful run has been written
+	if c.Fault == nil && first.err == nil {
+		for _, cn := range nodes {
+			for s := 0; s < cn.n.Shards; s++ {
+				if _, serr := os.Stat(cachePath(work, cn.n, s)); serr != nil && cn.private && completeStream(first.streams[cn.obs], s) != nil {
+					return fmt.Errorf("%s node %d shard %d: the run succeeded and computed the shard to its end, yet no shard file was written (a later run cannot read it from the cache)", cn.n.Op, cn.id, s), counts
+				}
+			}
+		}
+	}
 	// 3. a clean run afterwards is correct and uses what is cached
 	present := map[string]bool{}
 	for _, cn := range nodes {
@@ -547,4 +557,126 @@ func TestVerifC13Cache(t *testing.T) {
 			}
 		}
 	})
+}
+
+const shapesName = "TestVerifC13Shapes"
+
+// shapeSpec builds source -> observer -> Cache|CachePartial -> wrapper -> tail.
+func shapeSpec(nshard int, op, wrapper, tail string) *progen.Spec {
+	src := progen.Node{Op: "readerfunc", Cols: []progen.Col{progen.TInt, progen.TInt, progen.TInt}, NShard: nshard, ShardRows: make([][][]int, nshard)}
+	for s := 0; s < nshard; s++ {
+		for i := 0; i < 3; i++ {
+			src.ShardRows[s] = append(src.ShardRows[s], []int{(s + i) % 5, i % 2, s % 7})
+		}
+	}
+	spec := &progen.Spec{Nodes: []progen.Node{src, {Op: "writerfunc", In: []int{0}}, {Op: op, In: []int{1}, CachePrefix: "/shape"}}}
+	last := 2
+	add := func(n progen.Node) {
+		n.In = []int{last}
+		spec.Nodes = append(spec.Nodes, n)
+		last = len(spec.Nodes) - 1
+	}
+	switch wrapper {
+	case "prefixed":
+		add(progen.Node{Op: "prefixed", N: 2})
+	case "map":
+		add(progen.Node{Op: "map", Fn: &progen.Fn{Exprs: []progen.Expr{{K: "col", I: 0}, {K: "col", I: 1}, {K: "col", I: 2}}}})
+	case "filter":
+		add(progen.Node{Op: "filter", Fn: &progen.Fn{M: 10, T: 8}})
+	}
+	switch tail {
+	case "reduce":
+		if wrapper != "prefixed" {
+			add(progen.Node{Op: "prefixed", N: 2}) // Reduce needs exactly one value column
+		}
+		add(progen.Node{Op: "reduce", Fn: &progen.Fn{}})
+	case "reshuffle":
+		add(progen.Node{Op: "reshuffle"})
+	}
+	if err := progen.Annotate(spec); err != nil {
+		panic(err)
+	}
+	return spec
+}
+
+// TestVerifC13Shapes enumerates small fixed shapes around a cache node, including a Prefixed view
+// directly over it and a shard count above the parallelism of the cache's file look-ups.
+func TestVerifC13Shapes(t *testing.T) {
+	rec := vt.New("C13", "cache-shapes",
+		"complete enumeration: ReaderFunc -> observer -> {Cache, CachePartial} -> {nothing, Prefixed(2), Map, Filter} -> {nothing, Reduce, Reshuffle} x shard counts {1, 3, 170 (more shards than the cache looks up concurrently)} x pre-existing shard files {none, all, all but every 8th, only every 8th} x {local, bigmachine}; same oracle as cache (without fault enumeration); non-trivial = some but not all shard files pre-exist; distinct by case")
+	defer func() {
+		for k, s := range sessions {
+			s.Close()
+			delete(sessions, k)
+		}
+	}()
+	dir := os.Getenv("VERIF_SCRATCH")
+	if dir == "" {
+		dir = os.TempDir()
+	}
+	type shape struct {
+		NShard                int
+		Op, Wrapper, Tail, Ex string
+		Mask                  int
+	}
+	run := func(sh shape) error {
+		c := Case{Spec: *shapeSpec(sh.NShard, sh.Op, sh.Wrapper, sh.Tail), Exec: sh.Ex, Mask: sh.Mask}
+		d := filepath.Join(dir, "c13-shape")
+		os.RemoveAll(d)
+		os.MkdirAll(d, 0777)
+		defer os.RemoveAll(d)
+		err, _ := runCase(c, d)
+		return err
+	}
+	docs, only := vt.Replays(shapesName)
+	for _, d := range docs {
+		var sh shape
+		if err := json.Unmarshal(d.Case, &sh); err != nil {
+			t.Fatal(err)
+		}
+		rec.Case(true, vt.Hash(string(d.Case)), "replay")
+		if err := run(sh); err != nil {
+			rec.Violation(shapesName, sigOf(err), err.Error(), sh)
+			t.Errorf("replay: %v", err)
+		}
+	}
+	if only || t.Failed() {
+		return
+	}
+	excluded = rec.Exclude
+	idx := 0
+	failed := map[string]bool{}
+	for _, nshard := range []int{1, 3, 170} {
+		for _, op := range []string{"cache", "cachepartial"} {
+			for _, wrapper := range []string{"", "prefixed", "map", "filter"} {
+				for _, tail := range []string{"", "reduce", "reshuffle"} {
+					for _, mask := range []int{0, 255, 254, 1} {
+						for _, ex := range []string{"local", "bigmachine"} {
+							if nshard == 170 && (ex == "bigmachine" || tail == "reshuffle" || wrapper == "map" || wrapper == "filter") {
+								continue // the wide case is about the cache's own look-ups
+							}
+							idx++
+							if !vt.Mine(idx) {
+								continue
+							}
+							sh := shape{nshard, op, wrapper, tail, ex, mask}
+							nt := (mask == 254 || mask == 1) && nshard > 1
+							rec.Case(nt, vt.Hash("shape", nshard, op, wrapper, tail, ex, mask), "shape:"+op+"+"+wrapper+"+"+tail)
+							if nt && rec.WantSample("shape") {
+								rec.Sample("shape", sh)
+							}
+							if err := run(sh); err != nil {
+								if sig := sigOf(err); !failed[sig] {
+									failed[sig] = true
+									rec.Violation(shapesName, sig, fmt.Sprintf("%+v: %v", sh, err), sh)
+								}
+								t.Errorf("%+v: %v", sh, err)
+							}
+						}
+					}
+				}
+			}
+		}
+	}
+	rec.Exhaustive = true
 }
